@@ -624,9 +624,7 @@ String String::substr(int i, int n) const
 	if (i < 0) i += _len;
 	if (i >= _len)
 		i = _len;
-	int j = i + n;
-	if (j > _len)
-		j = _len;
+	int j = (n < _len - i) ? i + n : _len; // i + n may not be representable (substr(i, INT_MAX))
 	String s(j - i, j - i);
 	memcpy(s.str(), str() + i, j - i);
 	s.str()[j - i] = '\0';
